@@ -186,6 +186,6 @@ BigUnit == 1073741824                  \* 2^30
 BigQ == {2, 4, 5, 8, 12}               \* 2^31, 2^32, 5 GiB (largest S3 part), 2^33, 3 * 2^32
 BigD == {-1, 0, 1, 5}
 BigLenA == {0, 9, 65537}
-BigContents == {"rand", "ff"}          \* content of the first operand
+BigContents == {"rand"}                \* content of the first operand
 Big64Always == {q \in BigQ : q <= 5}   \* CRC64 (slow to stream) must be evaluated at least for these; all in thorough
 =============================================================================
